@@ -286,6 +286,10 @@ def main():
                                    uf_env=uf_env, rel=1e-9)
     P.crosscheck(pts, worst, cov, len(paths_gen))
 
+    # ---------------------------------------------------------------- the object API named as an observation point (props/coordlib.py)
+    from . import coordlib
+    m2 = E.load_repo(tuple(ALL) + ('geodepy.coord',))
+    coordlib.wiring(P, m2, sym_ellipsoid(m2['geodepy.constants']), sym_projection(m2['geodepy.constants']), ('CoordGeo.tm', 'CoordCart.tm'))
     B.report(P, 'bounded.C01')
     P.finish('proof')
 
